@@ -12,7 +12,7 @@ ASSUMPTIONS = [
     'thorough adds a bug-hunting pass of _sanitize_user_name on a symbolic str of length <= 3 (CrossHair string model, never reported as confirmed)',
 ]
 
-MENU = ['a', 'A', None, '', 'a b', 'sum', 'if', 'a__1', '1x', '_a_', ' 3rd', '#1 pick', '_7', 'a__10', 'class ', ' IF', 'for?', 'cols', 'column_names', 'copy', 'col0_', 'a_b', 'A-b', 'é', 'name', 'x__0', 'class', 'a.b', 'None', 'T', '__', 'max_', '9',
+MENU = ['a', 'A', None, '', 'a b', 'sum', 'if', 'a__1', '1x', '_a_', ' 3rd', '#1 pick', '_7', 'a__10', 'class ', ' IF', 'for?', 'cols', 'column_names', 'copy', 'col0_', 'a_b', 'A-b', 'é', 'name', 'x__0', 'class', 'a.b', 'None', 'T', '__', 'max_', '9', 'a_b__0', 'A b__1',
         'col1_', 'a__1_', 'Sum', 'a  b', 'lambda', 'shape', 'ß', 'a\tb', '_', 'c9', '0', 'x y z', 'colour', 'None_', 'import', '२']
 ML = H.cfg('menu', 33)
 
@@ -280,7 +280,7 @@ def h_symbolic_str(s: str) -> bool:
 
 def obligations(tier):
     q = tier == 'quick'
-    M = 33 if q else len(MENU)
+    M = 35 if q else len(MENU)
     obs = []
     obs.append(dict(name='rules', fn='h_rules', config={}, budget=60, bounds='_sanitize_user_name on all %d menu names vs the documented pipeline written independently' % len(MENU), smoke=[[0], [5], [6]]))
     for W in (1, 2):
